@@ -175,7 +175,3 @@ def validation_and_writer(ctx, out, rng):
 def search(ctx):
     return run(ctx)
 
-
-def replay(ctx, path):
-    print(open(path).read()[:3000])
-    return 0
